@@ -80,7 +80,7 @@ fn single_faults(ctx: &Ctx, rep: &mut Report) {
         let p = libr.p();
         let sub = format!("single_fault_{}", p.id);
         let bases = base_keys(&p, ctx.seed);
-        let nb = if ctx.quick() { 1 } else { bases.len() };
+        let nb = bases.len();
         let bad_values: Vec<u8> = ((2 * p.eta as u8 + 1)..(1u8 << p.eta_bits())).collect();
         let nv = bad_values.len();
         let nf = nfields(&p);
@@ -183,7 +183,7 @@ pub fn run(ctx: &Ctx, rep: &mut Report) {
     rep.assume("oracle: bit arithmetic on the byte string (a raw field value > 2*eta in the s1/s2 area <=> coefficient outside [-eta, eta]); shares no decoding code with the crate or with the reference's skDecode");
     rep.assume("the promise to reject is the crate's own documentation (traits.rs SerDes::try_from_bytes, encodings.rs sk_decode, conversion.rs bit_unpack); FIPS 204 skDecode itself does not reject");
     single_faults(ctx, rep);
-    run_generated(ctx, rep, "generated", ctx.n(12_000, 600_000), strategy, check);
+    run_generated(ctx, rep, "generated", ctx.n(60_000, 2_000_000), strategy, check);
 }
 
 pub fn replay(ctx: &Ctx, sub: &str, case: &Value) -> Option<CheckResult> {
